@@ -528,4 +528,65 @@ example : (match GenIfCompile.unlessInitGen (fun _ => .lit (.bool true)) [⟨"un
     | .ok (code, [.cond (.name n), .body [], .body [_]]) => code == "i" && n == "a".toList
     | _ => false) = true := by decide +kernel
 
+/-! ### The compile model and the parser model fail together
+
+`Parse.checkBlock` (the constructor work of the parser model: C06, the parser correspondence) and `Lemmas.IfCompile.ifParts` /
+`unlessParts` (what the translated `If.__init__` / `Unless.__init__` are proved equal to, above) are two hand-written models of
+the same constructors.  On every list of sections with a first section that is not called `else` - the parser only builds such
+lists: a block starts with its own tag - they end in a ParseError on exactly the same inputs, with the same text: the attributes
+of the if tag, then a trailing else (its attributes, the name it may repeat), then every elif in order, a second else before its
+attributes are looked at. -/
+theorem if_parts_error_iff_checkBlock (ev : Text → Expr) (s0 : Parse.Section Blk) (rest : List (Parse.Section Blk))
+    (h0 : s0.tname ≠ "else") (e : Parse.PErr) :
+    Lemmas.IfCompile.ifParts ev (s0 :: rest) = .error e ↔
+      Parse.checkBlock .if_ ((s0 :: rest).map fun s => (s.tname, s.args)) = .error e := by
+  rw [← Lemmas.IfCompile.errOf_eq_some, ← Lemmas.IfCompile.errOf_eq_some, Lemmas.IfCompile.if_parts_err_eq ev s0 rest h0]
+
+/-- so the translated constructor fails exactly when the parser model says the block is malformed, with its message -/
+theorem gen_if_compile_error_iff_checkBlock (ev : Text → Expr) (s0 : Parse.Section Blk) (rest : List (Parse.Section Blk))
+    (h0 : s0.tname ≠ "else") (e : Parse.PErr) :
+    GenIfCompile.ifInitGen ev (s0 :: rest) = .error e ↔
+      Parse.checkBlock .if_ ((s0 :: rest).map fun s => (s.tname, s.args)) = .error e := by
+  rw [← if_parts_error_iff_checkBlock ev s0 rest h0 e, gen_if_compile_is_model]
+  cases Lemmas.IfCompile.ifParts ev (s0 :: rest) <;> simp
+
+theorem unless_parts_error_iff_checkBlock (ev : Text → Expr) (s0 : Parse.Section Blk) (rest : List (Parse.Section Blk))
+    (e : Parse.PErr) :
+    Lemmas.IfCompile.unlessParts ev (s0 :: rest) = .error e ↔
+      Parse.checkBlock .unless ((s0 :: rest).map fun s => (s.tname, s.args)) = .error e := by
+  rw [← Lemmas.IfCompile.errOf_eq_some, ← Lemmas.IfCompile.errOf_eq_some, Lemmas.IfCompile.unless_parts_err_eq ev s0 rest]
+
+theorem gen_unless_compile_error_iff_checkBlock (ev : Text → Expr) (s0 : Parse.Section Blk) (rest : List (Parse.Section Blk))
+    (e : Parse.PErr) :
+    GenIfCompile.unlessInitGen ev (s0 :: rest) = .error e ↔
+      Parse.checkBlock .unless ((s0 :: rest).map fun s => (s.tname, s.args)) = .error e := by
+  rw [← unless_parts_error_iff_checkBlock ev s0 rest e, gen_unless_compile_is_model]
+  cases Lemmas.IfCompile.unlessParts ev (s0 :: rest) <;> simp
+
+/-- the hypotheses are needed.  No section at all: the source indexes `blocks[0]` (IndexError, `ifParts`), `checkBlock` reads
+empty arguments ("No name given"); a first section called `else`: the source takes it for the trailing else as well
+(`blocks[-1][0] == 'else'`) and parses its arguments a second time with the table of an else tag, `checkBlock` does not.  The
+parser builds neither list. -/
+example : (match Lemmas.IfCompile.ifParts (fun _ => .lit (.bool true)) [],
+      Parse.checkBlock .if_ (([] : List (Parse.Section Blk)).map fun s => (s.tname, s.args)) with
+    | .error e1, .error e2 => e1.msg == "IndexError" && e2.msg == "No name given"
+    | _, _ => false) = true := by decide +kernel
+example : (match Lemmas.IfCompile.ifParts (fun _ => .lit (.bool true)) [⟨"else", "expr=\"x\"".toList, []⟩],
+      Parse.checkBlock .if_ [("else", "expr=\"x\"".toList)] with
+    | .error _, .ok _ => true
+    | _, _ => false) = true := by decide +kernel
+/-- non-vacuity: the three errors of a malformed dtml-if, from both models -/
+example : (match Parse.checkBlock .if_ [("if", "a".toList), ("else", [])  , ("else", [])],
+      Lemmas.IfCompile.ifParts (fun _ => .lit (.bool true)) [⟨"if", "a".toList, []⟩, ⟨"else", [], []⟩, ⟨"else", [], []⟩] with
+    | .error e1, .error e2 => e1.msg == "more than one else tag for a single if tag" && e1 == e2
+    | _, _ => false) = true := by decide +kernel
+example : (match Parse.checkBlock .if_ [("if", "a".toList), ("else", "b".toList)],
+      Lemmas.IfCompile.ifParts (fun _ => .lit (.bool true)) [⟨"if", "a".toList, []⟩, ⟨"else", "b".toList, []⟩] with
+    | .error e1, .error e2 => e1.msg == "name in else does not match if" && e1 == e2
+    | _, _ => false) = true := by decide +kernel
+example : (match Parse.checkBlock .if_ [("if", "a".toList), ("elif", [])  , ("else", [])],
+      Lemmas.IfCompile.ifParts (fun _ => .lit (.bool true)) [⟨"if", "a".toList, []⟩, ⟨"elif", [], []⟩, ⟨"else", [], []⟩] with
+    | .error e1, .error e2 => e1.msg == "No name given" && e1 == e2
+    | _, _ => false) = true := by decide +kernel
+
 end DTML.Props.C09
